@@ -56,6 +56,34 @@ let tok_of_jv = function
   | JStr s -> "s:" ^ tok_of_str s | JInt z -> "i:" ^ string_of_int (int_of_z z)
   | JFlo r -> "f:" ^ tok_of_str r | JBool b -> if b then "b:1" else "b:0" | JNull -> "n"
 
+(* dt in prefix form: D typ nchildren child... nlits lit... ref opt cont *)
+let rec parse_dt (toks : Stdlib.String.t list) : dt * Stdlib.String.t list =
+  match toks with
+  | "D" :: typ :: n :: rest ->
+      let rec kids k toks acc = if k = 0 then (List.rev acc, toks) else
+        let (c, toks') = parse_dt toks in kids (k - 1) toks' (c :: acc) in
+      let (children, rest) = kids (int_of_string n) rest [] in
+      (match rest with
+       | nl :: rest ->
+           let rec lits k toks acc = if k = 0 then (List.rev acc, toks) else
+             (match toks with
+              | t :: toks' ->
+                  let l = (match String.split_on_char ':' t with
+                           | ["i"; x] -> LInt (str_of_tok x) | ["b"; x] -> LBool (x = "1") | ["s"; x] -> LStr (str_of_tok x)
+                           | _ -> failwith "lit") in lits (k - 1) toks' (l :: acc)
+              | [] -> failwith "lits") in
+           let (ls, rest) = lits (int_of_string nl) rest [] in
+           (match rest with
+            | rf :: op :: ct :: rest ->
+                let c = (match String.split_on_char ':' ct with
+                         | ["n"] -> CNone | ["l"] -> CList | ["s"] -> CSet | ["d"] -> CDict None
+                         | ["d"; k] -> CDict (Some (str_of_tok k)) | _ -> failwith "cont") in
+                (DT ((if typ = "~" then None else Some (str_of_tok typ)), children, ls,
+                     (if rf = "~" then None else Some (str_of_tok rf)), op = "1", c), rest)
+            | _ -> failwith "dt tail")
+       | [] -> failwith "dt lits")
+  | _ -> failwith "dt"
+
 let handle line =
   match String.split_on_char '\t' line with
   | "gvn" :: kind :: rest ->
@@ -147,6 +175,11 @@ let handle line =
                 String.concat ";" (List.map (fun (n, lt) -> tok_of_str n ^ "=" ^
                    (match lt with LQuoted e -> "q:" ^ tok_of_str e | LRaw v -> "r:" ^ tok_of_jv v)) l) ^ "\t" ^ fm)
        | _ -> "BADREQ")
+  | "th" :: u :: sc_ :: g :: rest ->
+      let o = { uo = bool_of_tok u; sc = bool_of_tok sc_; gc = bool_of_tok g } in
+      let (t, _) = parse_dt (String.split_on_char ' ' (String.concat " " rest)) in
+      let (h, opt) = th o t in
+      tok_of_str (show o h) ^ "\t" ^ (if opt then "1" else "0")
   | ["c2s"; s] -> tok_of_str (camel_to_snake u0 (str_of_tok s))
   | ["s2uc"; d; s] -> tok_of_str (s2uc u0 (n_of_int (int_of_string d)) (str_of_tok s))
   | _ -> "BADREQ"
